@@ -473,3 +473,4 @@ def run(chk, facts, tier, only=None):
     if only is None:
         import c02
         chk.include(c02, "C02.R2", "C05.R7", facts)     # "missing field tolerated iff opt/null/reserved", decided on the resolved type at every site
+        chk.include(c02, "C02.R4", "C05.R8", facts)     # the decoder's run-time use of the relation goes through the checker every time (no acceptance cache keyed by one type)
